@@ -189,7 +189,54 @@ def history(ctx, rng, M, n_runs, CFG=CFG, CMDS=CMDS, wide=False):
     finally:
         rr.close()
 
-NAME_POOL = ["build", "ok.name", "a-b_c", "\u00fcn\u00ef", "\u65e5\u672c", "..", ".", "...", "..x", "x..", "a/", "/abs", "a//b", "./a", "a/.", "../7", "../1/build", "x/y", "a/../b", "x\\y", "~", "CON", "a:b"]
+NAME_POOL = ["build", "ok.name", "result.json.zst", "result.json", "stdout.zst", "a-b_c", "\u00fcn\u00ef", "\u65e5\u672c", "..", ".", "...", "..x", "x..", "a/", "/abs", "a//b", "./a", "a/.", "../7", "../1/build", "x/y", "a/../b", "x\\y", "~", "CON", "a:b"]
+import shutil
+STRACE = shutil.which("strace")
+def result_write_error_round(ctx, rng):
+    """The file system refuses the data of the run's result file (no space left: every write(2) to run/<next>/result.json.zst fails with
+    ENOSPC, injected by strace).  Then the run has not completed: it must not exit 0/1 with a document, and `result show` / `log show` still
+    return the previous run; the next run works."""
+    if not STRACE:
+        ctx.count("strace_unavailable"); return
+    M = rng.choice([2, 3])
+    rr = runscen.RunRepo(ctx, {"targets": [{"path": "t1"}, {"path": "t2"}]}, M=M, commands=["build"])
+    try:
+        docs = []
+        for _ in range(rng.randint(1, M + 1)):
+            rc, out, err, raw = rr.run("-c", "build")
+            if rc != 0 or out is None:
+                ctx.record({"result_write_error": True, "what": "set-up run failed"}, True, False, False, False, detail={"rc": rc, "err": err}); return
+            docs.append(out)
+        ptr = rr.pointer(); nxt = 1 if ptr >= M else ptr + 1
+        rr.run_no += 1; rr.clear_traces()
+        env = dict(os.environ); env.update(vlib.GIT_ENV); env.update(rr.env())
+        target = os.path.join(rr.out_dir(), "run", str(nxt), "result.json.zst")
+        try:
+            p = subprocess.run([STRACE, "-f", "-b", "execve", "-o", "/dev/null", "-e", "trace=write,pwrite64,writev", "-e", "inject=write,pwrite64,writev:error=ENOSPC", "-P", target,
+                                vlib.BIN_MONORAIL, "-f", os.path.join(rr.repo, "Monorail.json"), "run", "-c", "build"], cwd=rr.repo, env=env, capture_output=True, timeout=120)
+        except subprocess.TimeoutExpired:
+            ctx.count("strace_timeout"); return
+        if b"ptrace" in p.stderr and p.returncode not in (0, 1, 2):
+            ctx.count("strace_unusable"); return
+        rc2, shown, err2, _ = vlib.monorail(rr.repo, "result", "show")
+        new_doc = None
+        for line in reversed(p.stdout.decode("utf-8", "replace").strip().splitlines()):
+            try: new_doc = json.loads(line); break
+            except Exception: continue
+        if p.returncode in (0, 1) and new_doc is not None:
+            ok = rc2 == 0 and runscen.strip_result(shown) == runscen.strip_result(new_doc)        # reported as completed: then it must be shown
+        else:
+            ok = rc2 == 0 and runscen.strip_result(shown) == runscen.strip_result(docs[-1]) and rr.pointer() == ptr
+        rc3, out3, err3, _ = rr.run("-c", "build")
+        ok_next = rc3 == 0 and out3 is not None
+        ctx.count("result_write_error_%s" % ("reported_completed" if p.returncode in (0, 1) else "reported_failure"))
+        ctx.record({"result_write_error": True, "M": M, "completed_runs": len(docs)}, True, ok and ok_next, ok and ok_next, True,
+                   sample={"M": M, "completed_runs": len(docs), "rc": p.returncode, "show_rc": rc2},
+                   detail={"what": "writes to the result file fail with ENOSPC", "rc": p.returncode, "show_rc": rc2, "show_err": err2, "pointer_before": ptr, "pointer_after": rr.pointer(), "next_run_rc": rc3,
+                           "stderr": p.stderr.decode("utf-8", "replace")[-300:]})
+    finally:
+        rr.close()
+
 def command_name_round(ctx, rng):
     """Which command names `run` accepts: decided by the model of the check in get_all_commands (Model.RunPaths.name_accepted, proved to
     be 'one path component that is not . or ..'); an accepted name's log directory is run/<slot>/<name>/<hash> and nothing else appears."""
@@ -224,6 +271,7 @@ def run(ctx, scale):
     for (M, n) in plan * scale:
         history(ctx, random.Random(rng.getrandbits(32)), M, n)
     command_name_round(ctx, random.Random(rng.getrandbits(32)))
+    for _ in range(1 if ctx.quick() else 6): result_write_error_round(ctx, random.Random(rng.getrandbits(32)))
     # a configuration with hundreds of targets: the stored result record is far larger than any I/O buffer
     for (M, n) in ([(2, 4)] if ctx.quick() else [(2, 6), (3, 8)]) * scale:
         history(ctx, random.Random(rng.getrandbits(32)), M, n, CFG=WIDE, CMDS=["build", "test"], wide=True)
@@ -231,6 +279,9 @@ def run(ctx, scale):
 def replay(ctx, case):
     import random
     c = case.get("case", case)
+    if c.get("result_write_error"):
+        result_write_error_round(ctx, random.Random(ctx.seed))
+        return {"spec_failures": [d for _, d in ctx.spec_failures][:3], "disagreements": [d for _, d in ctx.tie_breaks][:3]}
     if "command_name" in c:
         command_name_round(ctx, random.Random(ctx.seed))
         return {"spec_failures": [d for _, d in ctx.spec_failures][:3], "disagreements": [d for _, d in ctx.tie_breaks][:3]}
